@@ -317,7 +317,7 @@ pub fn worker(w: &WorkerArgs) -> i32 {
             check_graph(g, l)
         }),
         "fixed" => {
-            let cases = fixed_cases();
+            let cases: Vec<_> = fixed_cases().into_iter().enumerate().filter(|(i, _)| *i as u64 % w.nshards.max(1) == w.shard).map(|(_, c)| c).collect();
             run_enum(&rep, &fam, &cases, |(label, sources, prefixes, expect_ok), l| {
                 w.trace_case(|| json!({"kind": "graph", "templates": sources, "prefixes": prefixes}));
                 check_fixed(label, sources, prefixes, *expect_ok, l)
@@ -342,7 +342,26 @@ pub fn worker(w: &WorkerArgs) -> i32 {
 fn fixed_cases() -> Vec<(String, Vec<(String, String)>, Vec<String>, bool)> {
     let s = |v: &[(&str, &str)]| -> Vec<(String, String)> { v.iter().map(|(a, b)| (a.to_string(), b.to_string())).collect() };
     let p = |v: &[&str]| -> Vec<String> { v.iter().map(|x| x.to_string()).collect() };
-    vec![
+    let mut long = vec![];
+    // long rings and chains: no length at which a cycle stops being seen, or a valid chain stops being accepted
+    for n in [33usize, 64, 100, 126, 127, 128, 129, 130, 131, 200, 257, 300] {
+        let ring = |tag: &str, tail: usize| -> Vec<(String, String)> {
+            let mut v: Vec<(String, String)> = (0..n).map(|i| (format!("r{i}"), format!("{{% {tag} \"r{}\" %}}", (i + 1) % n))).collect();
+            for k in 0..tail {
+                v.push((format!("tail{k}"), format!("{{% {tag} \"{}\" %}}", if k + 1 < tail { format!("tail{}", k + 1) } else { "r0".to_string() })));
+            }
+            v
+        };
+        long.push((format!("include ring of {n}"), ring("include", 0), p(&[]), false));
+        long.push((format!("include ring of {n} entered from a tail"), ring("include", 3), p(&[]), false));
+        long.push((format!("extends ring of {n}"), ring("extends", 0), p(&[]), false));
+        long.push((format!("extends ring of {n} entered from a tail"), ring("extends", 2), p(&[]), false));
+        let chain: Vec<(String, String)> = (0..n).map(|i| (format!("c{i}"), if i + 1 < n { format!("{i},{{% include \"c{}\" %}}", i + 1) } else { "end".to_string() })).collect();
+        long.push((format!("acyclic include chain of {n}"), chain, p(&[]), true));
+        let ext: Vec<(String, String)> = (0..n).map(|i| (format!("e{i}"), if i == 0 { "{% block b %}root{% endblock %}".to_string() } else { format!("{{% extends \"e{}\" %}}{{% block b %}}{i},{{{{ super() }}}}{{% endblock %}}", i - 1) })).collect();
+        long.push((format!("acyclic extends chain of {n}"), ext, p(&[]), true));
+    }
+    let mut fixed = vec![
         ("self-include".into(), s(&[("a", "{% include \"a\" %}")]), p(&[]), false),
         ("self-extends".into(), s(&[("a", "{% extends \"a\" %}")]), p(&[]), false),
         ("self-include through prefix".into(), s(&[("themes/a", "{% include \"a\" %}")]), p(&["themes/"]), false),
@@ -364,7 +383,9 @@ fn fixed_cases() -> Vec<(String, Vec<(String, String)>, Vec<String>, bool)> {
         ("two components calling each other through includes".into(), s(&[("lib", "{% component A() %}{% include \"toB\" %}{% endcomponent A %}{% component B() %}{% include \"toA\" %}{% endcomponent B %}"), ("toB", "{{ <B /> }}"), ("toA", "{{ <A /> }}"), ("main", "{{ <A /> }}")]), p(&[]), true),
         ("diamond of includes".into(), s(&[("a", "{% include \"b\" %}{% include \"c\" %}"), ("b", "{% include \"d\" %}"), ("c", "{% include \"d\" %}"), ("d", "x")]), p(&[]), true),
         ("same target included many times".into(), s(&[("a", &"{% include \"b\" %}".repeat(40)), ("b", &"{% include \"c\" %}".repeat(40)), ("c", "x")]), p(&[]), true),
-    ]
+    ];
+    fixed.extend(long);
+    fixed
 }
 fn check_fixed(label: &str, sources: &[(String, String)], prefixes: &[String], expect_ok: bool, l: &mut Local) -> Check {
     let case = || json!({"kind": "fixed_graph", "label": label, "templates": sources, "prefixes": prefixes, "expect_ok": expect_ok});
@@ -416,7 +437,7 @@ pub fn run(rep: &Report) {
             rep.fail(Fail::new("C11/unbounded-recursion", format!("{fam} shard {shard}: worker {desc} while registering or rendering {}", c.to_string().chars().take(600).collect::<String>()), c));
         }
     };
-    run_in_workers(rep, "fixed", 1, 120, on_abnormal("fixed"));
+    run_in_workers(rep, "fixed", 16, 300, on_abnormal("fixed"));
     run_in_workers(rep, "random_graphs", 16, 120, on_abnormal("random_graphs"));
     run_in_workers(rep, "chains_and_cycles", 16, 120, on_abnormal("chains_and_cycles"));
     for (lab, min) in [("graph:accepted", 90_000), ("graph:rejected", 300_000), ("single-fault:MissingParent", 9_000), ("single-fault:MissingInclude", 9_000), ("single-fault:ExtendsCycle", 9_000), ("single-fault:IncludeCycle", 9_000), ("graph:several-faults", 30_000), ("graph:with-prefixes", 300_000), ("graph:exact-name-shadows-prefixed", 30_000), ("graph:depth>=4", 15_000), ("graph:depth>=16", 3_000), ("fixed-case", 18)] {
